@@ -1,6 +1,7 @@
 package checks
 
 import (
+	"sync/atomic"
 	"io"
 	"errors"
 	"fmt"
@@ -456,6 +457,13 @@ type C17SplitCase struct {
 	LMTP  bool `json:"lmtp"`
 	Reply int  `json:"reply"` // which answer of the conversation is split (-1: none)
 	At    int  `json:"at"`    // after how many octets of it
+	// Fault: "" the two pieces arrive one after the other | "eof" the connection ends behind the first piece |
+	// "silent" the server sends the first piece and then nothing any more (it goes on reading)
+	Fault string `json:"fault,omitempty"`
+	// Prop: whose oracle judges a fault case (C15 .. C18)
+	Prop string `json:"prop,omitempty"`
+	// NoCB (LMTP): the message is sent with Data(), without a status callback
+	NoCB bool `json:"no_callback,omitempty"`
 }
 
 var c17SplitAnswers = []string{
@@ -470,12 +478,27 @@ var c17SplitAnswers = []string{
 	"250 2.0.0 still here\r\n",                                            // NOOP
 }
 
+// c17LastSent: what the client wrote in the most recent run of this goroutine's conversation (per case; the fault family
+// runs its cases sequentially).
+var c17LastSent atomic.Value
+
 // c17SplitRun runs one fixed conversation against a scripted server and returns what the client reported, call by call.
 func c17SplitRun(c C17SplitCase) (string, *h.Finding) {
 	var f *h.Finding
 	var sb strings.Builder
+	dead := false // the fault has happened: the server says nothing any more
 	answer := func(i int) []byte {
 		a := c17SplitAnswers[i]
+		if dead {
+			return []byte{}
+		}
+		if i == c.Reply && c.Fault != "" && c.Fault != "slow" {
+			dead = true
+			if c.Fault == "eof" {
+				return []byte(a[:c.At] + "\x00EOF\x00")
+			}
+			return []byte(a[:c.At])
+		}
 		if i == c.Reply && c.At > 0 && c.At < len(a) {
 			a = a[:c.At] + "\x00CUT\x00" + a[c.At:]
 		}
@@ -483,12 +506,19 @@ func c17SplitRun(c C17SplitCase) (string, *h.Finding) {
 	}
 	inData, rcpt := false, 0
 	script := func(line string, n int) []byte {
+		if dead {
+			return []byte{}
+		}
 		if inData {
 			if line != "." {
 				return []byte{}
 			}
 			inData = false
 			if c.LMTP {
+				if c.Fault == "slow" {
+					// six virtual minutes between the two per-recipient answers: more than CommandTimeout, less than SubmissionTimeout
+					return append(append(answer(6), "\x00SLEEP\x00"...), answer(7)...)
+				}
 				return append(answer(6), answer(7)...)
 			}
 			return answer(6)
@@ -520,7 +550,7 @@ func c17SplitRun(c C17SplitCase) (string, *h.Finding) {
 			report("Rcpt 3", cl.Rcpt("r3@x.example", nil))
 			var w io.WriteCloser
 			var err error
-			if c.LMTP {
+			if c.LMTP && !c.NoCB {
 				w, err = cl.LMTPData(func(r string, st *smtp.SMTPError) { report("status "+r, errOrNil(st)) })
 			} else {
 				w, err = cl.Data()
@@ -531,6 +561,8 @@ func c17SplitRun(c C17SplitCase) (string, *h.Finding) {
 				report("Close", w.Close())
 			}
 			report("Noop", cl.Noop())
+			h.Wait()
+			c17LastSent.Store(string(cs.ToServer()))
 		}, nil)
 	})
 	if pan != "" {
@@ -549,9 +581,12 @@ func evalC17Split(c C17SplitCase) *h.Finding {
 	if f != nil {
 		return f
 	}
-	want, f := c17SplitRun(C17SplitCase{LMTP: c.LMTP, Reply: -1})
+	want, f := c17SplitRun(C17SplitCase{LMTP: c.LMTP, Reply: -1, NoCB: c.NoCB})
 	if f != nil {
 		return f
+	}
+	if got != want && c.Fault == "slow" {
+		return h.F("c17-slow-status-differs", "LMTP, six minutes between the two per-recipient answers (within SubmissionTimeout): the client reports\n%s   with prompt answers it reports\n%s", got, want)
 	}
 	if got != want {
 		return h.F("c17-split-reply-differs", "lmtp=%t: answer %q delivered to the client in two pieces (cut after %d octets): the client reports\n%s   with the answer in one piece it reports\n%s", c.LMTP, c17SplitAnswers[c.Reply], c.At, got, want)
@@ -560,6 +595,112 @@ func evalC17Split(c C17SplitCase) *h.Finding {
 }
 
 func init() { h.RegisterReplayer("c17-split", evalC17Split) }
+
+// evalClientFault: the connection fails while the server answers one command - it ends (EOF) or falls silent (the
+// client's CommandTimeout / SubmissionTimeout expires on the virtual clock) behind the first At octets of the answer.
+// Judged are cuts in front of the answer, inside its code, and inside a line that is not its last one (a last line
+// that lost only its tail is a matter of its own). From the call that was being answered on, no call may report
+// success, no LMTP recipient may be reported at all, and what was reported before is what the fault-free run reports;
+// the client writes HELO only behind a complete 500/502 answer, and never more than one line without an answer.
+func evalClientFault(c C17SplitCase) *h.Finding {
+	got, f := c17SplitRun(c)
+	if f != nil {
+		return f
+	}
+	sent, _ := c17LastSent.Load().(string)
+	want, f := c17SplitRun(C17SplitCase{LMTP: c.LMTP, Reply: -1, NoCB: c.NoCB})
+	if f != nil {
+		return f
+	}
+	desc := fmt.Sprintf("lmtp=%t: while the server sends answer %q the connection %s after %d octets", c.LMTP, c17SplitAnswers[c.Reply], map[string]string{"eof": "ends", "silent": "falls silent"}[c.Fault], c.At)
+	// which report line belongs to the faulted answer
+	first := map[int]string{0: "Mail", 1: "Mail", 2: "Rcpt 1", 3: "Rcpt 2", 4: "Rcpt 3", 5: "Data", 6: "status", 7: "status", 8: "Noop"}[c.Reply]
+	gl, wl := strings.Split(strings.TrimSpace(got), "\n"), strings.Split(strings.TrimSpace(want), "\n")
+	k := 0
+	for k < len(wl) && !strings.HasPrefix(wl[k], first) {
+		k++
+	}
+	if c.Reply == 7 {
+		k++ // the second per-recipient answer
+	}
+	if (!c.LMTP || c.NoCB) && (c.Reply == 6 || c.Reply == 7) {
+		k = len(wl) - 2 // without a callback the final answers are reported by Close
+	}
+	switch c.Prop {
+	case "C17":
+		for i := 0; i < k && i < len(gl); i++ {
+			if gl[i] != wl[i] {
+				return h.F("c17-fault-earlier-report-differs", "%s: what the client reported BEFORE that differs from the fault-free conversation: %q, want %q", desc, gl[i], wl[i])
+			}
+		}
+	case "C16", "C18":
+		for i := k; i < len(gl); i++ {
+			if strings.HasSuffix(gl[i], ": nil") {
+				return h.F(strings.ToLower(c.Prop)+"-fault-success-reported", "%s: and yet the client reports %q (all reports: %q)", desc, gl[i], gl)
+			}
+			if c.Prop == "C18" && strings.HasPrefix(gl[i], "status ") {
+				return h.F("c18-fault-status-reported", "%s: and yet a per-recipient status is reported afterwards: %q", desc, gl[i])
+			}
+		}
+		if c.Prop == "C18" && c.NoCB && c.Reply == 7 {
+			for _, l := range gl {
+				if strings.HasPrefix(l, "Close: SMTPError{") {
+					return h.F("c18-fault-verdict-without-all-replies", "%s (no status callback): Close returned a verdict (%s) although the replies of the accepted recipients were never all read", desc, l)
+				}
+			}
+		}
+		if c.Prop == "C18" {
+			for i := 0; i < k && i < len(gl); i++ {
+				if gl[i] != wl[i] {
+					return h.F("c18-fault-earlier-report-differs", "%s: what the client reported before that differs from the fault-free conversation: %q, want %q", desc, gl[i], wl[i])
+				}
+			}
+		}
+	case "C15":
+		if strings.Contains(sent, "HELO ") {
+			return h.F("c15-helo-without-refusal", "%s: the client wrote HELO although no EHLO answer was ever completed (wire: %q)", desc, sent)
+		}
+	}
+	return nil
+}
+
+func init() { h.RegisterReplayer("client-fault", evalClientFault) }
+
+// clientFaultFamily runs the fault cases for one property.
+func clientFaultFamily(run *h.Run, prop string) {
+	for _, lmtp := range []bool{false, true} {
+		for ri, a := range c17SplitAnswers {
+			if ri == 7 && !lmtp {
+				continue
+			}
+			lastLine := strings.LastIndex(strings.TrimSuffix(a, "\r\n"), "\n") + 1
+			for at := 0; at < len(a); at++ {
+				if at > lastLine+3 {
+					continue // the tail of the last line: not judged (see evalClientFault)
+				}
+				for _, fault := range []string{"eof", "silent"} {
+					for _, nocb := range []bool{false, true} {
+						if nocb && !(lmtp && prop == "C18") {
+							continue
+						}
+						c := C17SplitCase{LMTP: lmtp, Reply: ri, At: at, Fault: fault, Prop: prop, NoCB: nocb}
+						f := evalClientFault(c)
+						run.Eval(true)
+						if f != nil {
+							run.Violate("client-fault", c, f, func() *h.Finding { return evalClientFault(c) })
+							run.Outcome("violation:" + f.Sig)
+						} else {
+							run.Outcome("client-fault-ok:" + fault)
+						}
+					}
+				}
+			}
+		}
+	}
+}
+
+const clientFaultRule = " Client I/O faults: in a fixed conversation (EHLO, MAIL, three RCPT, DATA/LMTPData, NOOP) against a scripted server the connection ENDS or FALLS SILENT (CommandTimeout / SubmissionTimeout expire on the virtual clock) behind the first k octets of each answer - k = 0, inside the code, inside every line but the tail of the last one - x {SMTP, LMTP}: from the call being answered on no call reports success and no recipient status is reported, earlier reports equal the fault-free run, HELO is written only behind a complete 500/502."
+
 
 func C17(tier string) int {
 	run := h.NewRun("C17", tier, "exploration", "", 20*time.Minute)
@@ -680,6 +821,15 @@ func C17(tier string) int {
 			}
 		}
 	}
+	for _, nocb := range []bool{false, true} {
+		c := C17SplitCase{LMTP: true, Reply: -1, Fault: "slow", NoCB: nocb}
+		f := evalC17Split(c)
+		run.Eval(true)
+		if f != nil {
+			run.Violate("c17-split", c, f, func() *h.Finding { return evalC17Split(c) })
+			run.Outcome("violation:" + f.Sig)
+		}
+	}
 	for _, lmtp := range []bool{false, true} {
 		for ri, a := range c17SplitAnswers {
 			for at := 1; at < len(a); at++ {
@@ -695,8 +845,86 @@ func C17(tier string) int {
 			}
 		}
 	}
+	for _, g := range []string{"554 5.7.1 go away\r\n", "554-5.7.1 no service for you\r\n554 5.7.1 go away\r\n", "421 4.3.2 shutting down\r\n", "550 no enhanced code here\r\n"} {
+		for _, ce := range []bool{false, true} {
+			c := C17GreetCase{Greeting: g, CloseErr: ce}
+			f := evalC17Greet(c)
+			run.Eval(true)
+			if f != nil {
+				run.Violate("c17-greet", c, f, func() *h.Finding { return evalC17Greet(c) })
+				run.Outcome("violation:" + f.Sig)
+			}
+		}
+	}
+	// the connection ends or falls silent in the middle of an answer (checks/c17.go)
+	run.Rule += clientFaultRule
+	clientFaultFamily(run, "C17")
 	// histories of client calls (explicit-state search, checks/clientbfs.go)
 	run.Rule += clientSearchRule
 	clientSearch(run, "C17", 0)
 	return run.Finish()
 }
+
+// ---- a refusal in the greeting, and a connection whose Close fails ------------------------------------------------------
+
+type c17CloseErrConn struct{ *h.End }
+
+func (c c17CloseErrConn) Close() error {
+	c.End.Close()
+	return errors.New("close: transport endpoint is not connected")
+}
+
+type C17GreetCase struct {
+	Greeting string `json:"greeting"`
+	CloseErr bool   `json:"close_err"`
+}
+
+// evalC17Greet: a server that refuses in its greeting (554 / 421, one or two lines). The client reports exactly that
+// reply - also when closing the connection afterwards fails, and on every later call.
+func evalC17Greet(c C17GreetCase) *h.Finding {
+	var e1, e2 error
+	leak, pan := h.Bubble(func() {
+		cEnd, sEnd := h.NewDuplex()
+		go func() {
+			sEnd.Write([]byte(c.Greeting))
+			buf := make([]byte, 256)
+			for {
+				if _, err := sEnd.Read(buf); err != nil {
+					sEnd.Close()
+					return
+				}
+			}
+		}()
+		var cl *smtp.Client
+		if c.CloseErr {
+			cl = smtp.NewClient(c17CloseErrConn{cEnd})
+		} else {
+			cl = smtp.NewClient(cEnd)
+		}
+		e1 = cl.Hello("c.example")
+		e2 = cl.Mail("s@a.example", nil)
+		cl.Close()
+		cEnd.Close()
+		h.Wait()
+	})
+	desc := fmt.Sprintf("greeting %q, Close of the connection fails: %t", c.Greeting, c.CloseErr)
+	if pan != "" {
+		return h.F("c17-harness-panic", "%s: %s", desc, pan)
+	}
+	if leak != "" {
+		return h.F("c17-deadlock", "%s: %.200s", desc, leak)
+	}
+	rs, err := ref.ParseReplies([]byte(c.Greeting))
+	if err != nil || len(rs) != 1 {
+		return h.F("harness-error", "%s: %v", desc, err)
+	}
+	want := replyErr(rs[0])
+	for i, e := range []error{e1, e2} {
+		if !cbSame(e, want, false) {
+			return h.F("c17-greeting-refusal-lost", "%s: call %d returned %s, want the server's refusal %s", desc, i+1, cbErrString(e), cbErrString(want))
+		}
+	}
+	return nil
+}
+
+func init() { h.RegisterReplayer("c17-greet", evalC17Greet) }
